@@ -337,6 +337,7 @@ let apply (si : stepinfo) : string option =
       let n = nat x.n in
       let sub a b = (* a included in b *)
         match b.cv with Some c -> contains_b n c a.g | None -> get "gens_incl" (gens_incl n a.g b.g) in
+      if x.n <> y.n then (if List.nth rest 1 = "equals" then Some "bool 0" else Some "exn invalid_argument") else
       let b = (match List.nth rest 1 with
         | "contains" -> sub y x
         | "strictly_contains" -> sub y x && not (sub x y)
